@@ -22,7 +22,12 @@ func c10Cfg() *DeclCfg {
 }
 
 func c10Run(c *Ctx) {
-	d := GenDecl(c.Sub("d"), c10Cfg())
+	cfg10 := c10Cfg()
+	if c.K%10 == 9 {
+		// many positional fields (more than any small fixed buffer): every one is bound, in order
+		cfg10.PPos, cfg10.PosMax = 100, 14
+	}
+	d := GenDecl(c.Sub("d"), cfg10)
 	if inHistTail(c, 40000, 1500000) {
 		// help (or a man page) written before the parse must not disturb the binding order
 		hc := c10Cfg()
